@@ -378,7 +378,7 @@ var scalarDistTable = []distEntry{
 
 // reviewed exclusions from the formula table
 var scalarDistExcluded = map[string]string{
-	"CategoricalDistribution": "vector-valued parameter table, log-probabilities stored directly (no closed form to compare)",
+	"CategoricalDistribution": "vector-valued parameter table: decided by rule R7 on three symbolic probabilities instead of a family formula",
 	"DeltaDistribution":       "point mass: LogPdf is 0 at the atom and -Inf elsewhere, checked by the support rule only",
 	"Mixture":                 "composite of component distributions (generic mixture, C16 territory)",
 	"PdfLogTransform":         "wrapper: density of a transformed variable, checked by rule R6 (wrappers) not by a family formula",
@@ -431,6 +431,7 @@ func checkC14(c *core.Ctx) error {
 	c.Analysed["interpreted_paths"] = c14Paths
 	checkWrappers(c, p, d)
 	checkIid(c, p, d)
+	checkCategorical(c, p, d)
 	return nil
 }
 
